@@ -92,8 +92,9 @@ if OUT:
     Req, Book = EC.cls(P + "Req"), EC.cls(P + "Book")
     EXPECT = {"write_book": (Book, EC.cls(P + "WriteMetadata")),
               "rebuild_index": (EC.cls(P + "IndexReport"), EC.cls(P + "IndexMetadata")),
-              "clean_up": (EC.cls(".google.protobuf.Empty"), EC.cls(P + "WriteMetadata"))}
-    RPCS = ["write_book", "rebuild_index", "clean_up", "raw_op", "get_book"]
+              "clean_up": (EC.cls(".google.protobuf.Empty"), EC.cls(P + "WriteMetadata")),
+              "reindex_book": (Book, EC.cls(P + "IndexMetadata"))}
+    RPCS = ["write_book", "rebuild_index", "clean_up", "reindex_book", "raw_op", "get_book"]
     for _w, _c in (("client", "LibraryClient"), ("async_client", "LibraryAsyncClient")):
         for _m in RPCS:
             EC.method(_w, _c, _m)
@@ -112,12 +113,12 @@ def call(which, method, request):
 
 def futures(which_rpc: int, named: bool) -> bool:
     """
-    pre: 0 <= which_rpc <= 3
+    pre: 0 <= which_rpc <= 4
     post: _
     """
-    which_rpc, named = conc(which_rpc, 0, 3), bool(named)
+    which_rpc, named = conc(which_rpc, 0, 4), bool(named)
     with untraced():
-        m = ["write_book", "rebuild_index", "clean_up", "raw_op"][which_rpc]
+        m = ["write_book", "rebuild_index", "clean_up", "raw_op", "reindex_book"][which_rpc]
         for which in ("client", "async_client"):
             res, tr = call(which, m, Req(name="books/b") if named else None)
             if tr.total_calls() != 1 or len(tr.recorders[m].calls) != 1:
